@@ -358,6 +358,16 @@ class Function:
     def walk(self):
         return walk(self.body)
 
+    def walk_all(self):
+        """body plus constructor initialisers"""
+        for ini in self.raw.get("inits", []):
+            for c in ini.get("ch", []):
+                if c is not None:
+                    for x in walk(c):
+                        yield x
+        for x in walk(self.body):
+            yield x
+
     def calls(self, name=None):
         for n in self.walk():
             if n["k"] in ("Call", "Construct"):
